@@ -51,6 +51,9 @@ func (c *Encoder) encodeCallStatement(stmt *ast.CallStatement) *Frame {
 	w.Reset()
 
 	w.Write(c.encodeIdent(stmt.Subroutine).Encode())
+	for _, arg := range stmt.Arguments {
+		w.Write(c.encodeExpression(arg).Encode())
+	}
 
 	return &Frame{
 		frameType: CALL_STATEMENT,
